@@ -546,19 +546,43 @@ func checkC04(c *Ctx) {
 func (c *Ctx) c04Handlers(handlers []*ssa.Function, mgr *types.Named, mbfa *types.Func) {
 	p, r := c.P, c.R
 	n := 0
-	for _, H := range handlers {
+	// every top-level function of the two packages (a registered handler may only wrap an
+	// action function it runs through a function value)
+	_ = handlers
+	var all []*ssa.Function
+	for _, fn := range append(pkgFuncs(p, "pkg/rest"), pkgFuncs(p, "pkg/webui")...) {
+		if fn.Parent() == nil {
+			all = append(all, fn)
+		}
+	}
+	sortFuncs(all)
+	for _, H := range all {
 		pk := eng.FuncPkgPath(H)
 		if pk != eng.Mod+"/pkg/rest" && pk != eng.Mod+"/pkg/webui" {
 			continue
 		}
 		eng.EachCallDeep(H, func(fn *ssa.Function, ci ssa.CallInstruction) {
 			cc := ci.Common()
+			// a Manager operation called through a method value (op(mailbox, id))
+			if call, isCall := ci.(*ssa.Call); isCall && !cc.IsInvoke() && len(cc.Args) > 0 {
+				if mi, isI := mgr.Underlying().(*types.Interface); isI {
+					if o := c.mgrOpThroughValue(call, mgrOps(mi)...); o != nil && o.Name() != "MailboxForAddress" && o.Name() != "Deliver" {
+						n++
+						if c.flowsFromCallP(cc.Args[0], mbfa) {
+							r.Ok("C04/ONE-AUTHORITY", shortFn(H)+":"+o.Name(), p.InstrPos(ci), "mailbox argument is the result of MailboxForAddress")
+						} else {
+							r.Bad("C04/ONE-AUTHORITY", shortFn(H)+":"+o.Name(), p.InstrPos(ci), "mailbox argument of Manager.%s (called through a method value) does not come from Manager.MailboxForAddress", o.Name())
+						}
+						return
+					}
+				}
+			}
 			if cc.IsInvoke() && types.Identical(cc.Value.Type(), mgr) {
 				if cc.Method.Name() == "MailboxForAddress" || cc.Method.Name() == "Deliver" || len(cc.Args) == 0 {
 					return
 				}
 				n++
-				if flowsFromCall(cc.Args[0], mbfa, 0) {
+				if c.flowsFromCallP(cc.Args[0], mbfa) {
 					r.Ok("C04/ONE-AUTHORITY", shortFn(H)+":"+cc.Method.Name(), p.InstrPos(ci), "mailbox argument is the result of MailboxForAddress")
 				} else {
 					r.Bad("C04/ONE-AUTHORITY", shortFn(H)+":"+cc.Method.Name(), p.InstrPos(ci), "mailbox argument of Manager.%s does not come from Manager.MailboxForAddress", cc.Method.Name())
